@@ -424,6 +424,14 @@ def run_routes(case):
                 sim.app.route(p)(lambda n, pa, a: None)
         for p in routes[:len(routes) - n_late]:
             declare(p)
+        if case.get('dup') and fe == 'v2':
+            # one of the routes is declared a second time: the prefix is occupied, the declaration is refused - and a refused
+            # declaration declares nothing
+            try:
+                declare(routes[case['dup'] % (len(routes) - n_late)])
+                r.bad(f'C17/{fe}/routes/second-declaration-accepted', '')
+            except ValueError:
+                pass
         for conn in range(2):
             seen.clear()
             sim.start()
@@ -487,7 +495,7 @@ def _routes_case():
                                   'routes': st.lists(S.name(1, 3, 8, allow_digest_types=False), min_size=1, max_size=4,
                                                      unique_by=str),
                                   'latency': st.sampled_from([0, 1, 5]), 'open_delay': st.sampled_from([0, 20]),
-                                  'late': st.integers(0, 2), 'during': st.booleans(), 'end': st.sampled_from(['shutdown', 'cancel', 'transport-error'])})
+                                  'late': st.integers(0, 2), 'during': st.booleans(), 'dup': st.sampled_from([0, 0, 1, 2, 3]), 'end': st.sampled_from(['shutdown', 'cancel', 'transport-error'])})
 
 
 # ---- parse_response round trip -----------------------------------------------------------------------------------------------
